@@ -394,6 +394,8 @@ type FakeServer struct {
 	Stateful bool                                          // Streamable: issue a session id on initialize
 	PostSSE  bool                                          // Streamable: answer requests as an event stream
 	Plan     func(method, kind string, nth int) FakeAction // nil = everything ok
+	// NoEndpoint (legacy): the event stream is accepted and its headers are flushed, but the endpoint event never comes.
+	NoEndpoint bool
 
 	mu      sync.Mutex
 	counts  map[string]int
@@ -571,6 +573,11 @@ func (f *FakeServer) serveLegacy(w http.ResponseWriter, r *http.Request) {
 		}()
 		w.Header().Set("Content-Type", "text/event-stream")
 		w.WriteHeader(200)
+		if f.NoEndpoint {
+			w.(http.Flusher).Flush()
+			<-r.Context().Done()
+			return
+		}
 		fmt.Fprintf(w, "event: endpoint\ndata: /message?sessionId=%s\n\n", sid)
 		w.(http.Flusher).Flush()
 		for {
